@@ -2,6 +2,9 @@ import UsualProofs.C12.Inv
 /-! Every memory access of every function lies inside the buffer: reads in `[0, write_pos)`,
 writes in `[0, alloc_len)` and never on a reader; fixed buffers keep their allocation, readers
 their contents. -/
+set_option linter.unusedSimpArgs false
+set_option linter.unusedVariables false
+
 namespace UsualProofs.C12
 open Usual.C12
 
